@@ -88,21 +88,49 @@ func (e *Ev) scalarValue() px.Value {
 	panic("not a scalar: " + e.T)
 }
 
-// play performs the calls on the consumer
-func play(e *Ev, c px.ValueConsumer) {
+// The `len` argument of AddArray/AddHash is a capacity hint, not a contract: JsonToData always passes 8
+// (jsontodata.go:75-85), the type parser 0 (types/parser.go:211), the Serializer and ConsumePBData the exact
+// count.  A consumer must deliver the same result under every hint; the harness plays each stream under one
+// of these policies (recorded in the replay input as "hint").
+const nHintModes = 5
+
+var hintNames = [nHintModes]string{"exact", "zero", "eight", "one-short", "five-over"}
+
+func hintFor(mode, n int) int {
+	switch mode {
+	case 1:
+		return 0
+	case 2:
+		return 8
+	case 3:
+		if n > 0 {
+			return n - 1
+		}
+		return 0
+	case 4:
+		return n + 5
+	}
+	return n
+}
+
+// play performs the calls on the consumer (exact length hints)
+func play(e *Ev, c px.ValueConsumer) { playH(e, c, 0) }
+
+// playH performs the calls on the consumer under the given hint policy
+func playH(e *Ev, c px.ValueConsumer, mode int) {
 	switch e.T {
 	case "ref":
 		c.AddRef(int(e.Int()))
 	case "arr":
-		c.AddArray(len(e.L), func() {
+		c.AddArray(hintFor(mode, len(e.L)), func() {
 			for _, x := range e.L {
-				play(x, c)
+				playH(x, c, mode)
 			}
 		})
 	case "hash":
-		c.AddHash(len(e.L)/2, func() {
+		c.AddHash(hintFor(mode, len(e.L)/2), func() {
 			for _, x := range e.L {
-				play(x, c)
+				playH(x, c, mode)
 			}
 		})
 	default:
@@ -336,6 +364,31 @@ func (e *Ev) size() int {
 	n := 0
 	walk(e, func(*Ev) { n++ })
 	return n
+}
+
+// depth: the number of containers open at the deepest call (a scalar: 0)
+func (e *Ev) depth() int {
+	if !e.isContainer() {
+		return 0
+	}
+	m := 0
+	for _, x := range e.L {
+		if d := x.depth(); d > m {
+			m = d
+		}
+	}
+	return m + 1
+}
+
+// width: the largest number of children of one container
+func (e *Ev) width() int {
+	m := 0
+	walk(e, func(x *Ev) {
+		if len(x.L) > m {
+			m = len(x.L)
+		}
+	})
+	return m
 }
 
 func (e *Ev) has(p func(*Ev) bool) bool {
